@@ -76,6 +76,10 @@ void enc_dec_segments_init(EncDecSegments *segments_ptr, uint32_t segColCount, u
     segRowCount = (segRowCount < segments_ptr->segment_max_row_count)
         ? segRowCount
         : segments_ptr->segment_max_row_count;
+    // A picture (or tile group) that is a single SB wide has no wavefront: the bottom-left link
+    // between consecutive segment rows does not exist, so rows > 0 would never be started.
+    if (pic_width_sb == 1)
+        segRowCount = 1;
 
     segments_ptr->sb_row_count       = pic_height_sb;
     segments_ptr->sb_band_count      = BAND_TOTAL_COUNT(pic_height_sb, pic_width_sb);
